@@ -2,6 +2,8 @@ package vsched
 
 import (
 	"cmp"
+	"fmt"
+	"os"
 	"reflect"
 	"sort"
 	"strings"
@@ -500,7 +502,40 @@ func (v *VTimer) Reset(d time.Duration) bool {
 // Ext is the point before a call into an external package whose shared state
 // the scheduler cannot see (database handles, remote clients): it wraps the
 // callee, parks, and returns it.
+//
+// database/sql is given a little more model: Zeno's handles run with one
+// connection (SetMaxOpenConns(1)), so an open transaction is a lock - Begin
+// acquires it (parks until no other thread holds it), Commit/Rollback by the
+// holder release it, and every other call into the database by a thread that
+// does not hold it waits. Without this a thread preempted inside a transaction
+// would make another thread's call block for real, outside the scheduler.
 func Ext[F any](id, pkg string, f F) F {
-	Point(id, "ext:"+pkg)
+	if mode.Load() != ModeControlled || (pkg != "database/sql" && !strings.HasSuffix(pkg, "sqlc_model")) {
+		Point(id, "ext:"+pkg)
+		return f
+	}
+	x, t := ctx(id)
+	if x == nil {
+		return f
+	}
+	free := func() bool { return x.sqlTxOwner == nil || x.sqlTxOwner == t }
+	switch {
+	case strings.HasSuffix(id, ".Begin") || strings.HasSuffix(id, ".BeginTx"):
+		ok := Block(id, "ext:sql", free)
+		if os.Getenv("VERIF_DEBUG_SQL") != "" {
+			fmt.Fprintf(os.Stderr, "SQL begin by %s (blocked-ok=%v) owner-before=%v\n", t.name, ok, x.sqlTxOwner != nil)
+		}
+		x.sqlTxOwner = t
+	case strings.HasSuffix(id, ".Commit") || strings.HasSuffix(id, ".Rollback"):
+		Point(id, "ext:sql")
+		if os.Getenv("VERIF_DEBUG_SQL") != "" {
+			fmt.Fprintf(os.Stderr, "SQL end %s by %s owner-is-me=%v\n", id, t.name, x.sqlTxOwner == t)
+		}
+		if x.sqlTxOwner == t {
+			x.sqlTxOwner = nil
+		}
+	default:
+		Block(id, "ext:sql", free)
+	}
 	return f
 }
